@@ -3,10 +3,7 @@
 
 use std::{
     collections::{HashMap, VecDeque},
-    sync::{
-        Mutex, OnceLock,
-        atomic::{AtomicU64, Ordering},
-    },
+    sync::{Mutex, OnceLock},
     time::Duration,
 };
 
@@ -40,7 +37,6 @@ fn state() -> &'static Mutex<HookState> {
     S.get_or_init(|| Mutex::new(HookState::default()))
 }
 
-pub static HOOK_HITS: AtomicU64 = AtomicU64::new(0);
 
 fn is_start(site: Site) -> bool {
     matches!(site, Site::AsyncDeflateTaskStart | Site::AsyncInflateTaskStart)
@@ -54,7 +50,6 @@ pub fn hook(site: Site, data: &[u8]) {
     if !is_start(site) && !is_end(site) {
         return;
     }
-    HOOK_HITS.fetch_add(1, Ordering::Relaxed);
     let h = fnv1a(data);
     if is_start(site) {
         let delay = {
@@ -170,8 +165,6 @@ pub fn analyse(log: &[Event], inflate: bool) -> OrderStats {
     st.order_hash = fnv1a(&bytes);
     st
 }
-
-pub const PLANS: &[&str] = &["none", "reverse", "random", "one_slow", "end_heavy"];
 
 pub fn make_delays(plan: &str, n: usize, window: usize, rng: &mut Rng) -> Vec<(u64, u64)> {
     let w = window.max(2);
